@@ -307,6 +307,13 @@ def eval_group_case(ctx: Ctx, case, pend):
             continue
         # ---- oracles: the property's own clauses on the real code
         e = grp_err(name, el, x, dtype, tsc)
+        # tiny rotations: the absolute quaternion distance cannot see a wrong direction of a 1e-30 rotation; compare
+        # the vector parts relative to ‖v‖ (sign chosen by the real parts)
+        qe = el[U.QSL[name]]
+        sg = 1.0 if qe[3] * q[3] >= 0 else -1.0
+        vn_x = norm(q[:3])
+        if vn_x > 0 and abs(q[3]) > 0.5:
+            e["v_rel"] = max(abs(a - sg * b) for a, b in zip(qe[:3], q[:3])) / (tol_rot(dtype) * vn_x)
         diag(f"oracle.explog.{name}.{dtype}", max(e.values()), (x, e))
         bad = {k: round(v, 2) for k, v in e.items() if not v <= 1.0}
         if bad:
@@ -380,7 +387,11 @@ def eval_alg_case(ctx: Ctx, case, pend):
         if seam:
             ctx.count("alg.seam")
             e1 = E.tensor().double().reshape(-1, gd)[i].tolist()
-            e2 = LE.Exp().tensor().double().reshape(-1, gd)[i].tolist()
+            try:
+                e2 = LE.Exp().tensor().double().reshape(-1, gd)[i].tolist()
+            except Exception as ex:
+                ctx.fail(small(case, i), f"raises {name}: Exp(Log(Exp x)) raised {type(ex).__name__}: {str(ex)[:120]}")
+                continue
             _, t1, _ = grp_blocks(name, e1)
             e = grp_err(name, e2, e1, dtype, norm(t1) if t1 is not None else 0.0)
             bad = {k: round(v, 2) for k, v in e.items() if not v <= 2.0}
@@ -473,8 +484,12 @@ def mp_check_log(ctx: Ctx, case):
     name, dtype = case["type"], case["dtype"]
     D = U.dt(dtype)
     X = P.LieTensor(torch.tensor(case["X"], dtype=torch.float64).to(D), ltype=U.ltype(name))
-    L = X.Log().tensor().double().reshape(-1, U.ADIM[name]).tolist()
-    M = X.matrix().double().reshape(-1, U.MATN[name], U.MATN[name]).tolist()
+    try:
+        L = X.Log().tensor().double().reshape(-1, U.ADIM[name]).tolist()
+        M = X.matrix().double().reshape(-1, U.MATN[name], U.MATN[name]).tolist()
+    except Exception as ex:
+        ctx.fail(case, f"raises {name}: Log/matrix raised {type(ex).__name__}: {str(ex)[:120]}")
+        return
     Xf = X.tensor().double().reshape(-1, U.GDIM[name]).tolist()
     for i, (a, m, x) in enumerate(zip(L, M, Xf)):
         if not finite(a):
@@ -497,6 +512,41 @@ def mp_check_log(ctx: Ctx, case):
             else:
                 continue
             break
+
+
+def mp_check_exp_log(ctx: Ctx, case):
+    """algebra case through the 50-digit oracle: matrix(Exp x) = expm(generator x) and, with L = Log(Exp x),
+    expm(generator L) = matrix(Exp x)"""
+    P = U.pp()
+    name, dtype = case["type"], case["dtype"]
+    try:
+        x = P.LieTensor(torch.tensor(case["x"], dtype=torch.float64).to(U.dt(dtype)), ltype=getattr(P, U.ALG[name] + "_type"))
+        E = x.Exp()
+    except Exception as ex:
+        ctx.fail(case, f"raises {name}: Exp raised {type(ex).__name__}: {str(ex)[:120]}")
+        return
+    import mpmath as mp
+    mp.mp.dps = 50
+    M = E.matrix().double().reshape(-1, U.MATN[name], U.MATN[name]).tolist()
+    for i, (a, m) in enumerate(zip(x.tensor().double().reshape(-1, U.ADIM[name]).tolist(), M)):
+        T = mp.expm(mp_generator(name, a))
+        phi, tau, sig = alg_blocks(name, a)
+        sc = math.exp(sig) if sig is not None else 1.0
+        tsc = max((abs(float(T[r, 3])) for r in range(3)), default=0.0) if tau is not None else 0.0
+        for r in range(3):
+            for c in range(U.MATN[name]):
+                if c == 3 and tau is None:
+                    continue
+                err = abs(float(T[r, c] - mp.mpf(m[r][c])))
+                lim = 4 * tol_rot(dtype) * sc if c < 3 else tol_tr(dtype) * max(tsc, 1e-300)
+                if err > lim:
+                    ctx.fail(small(case, i), f"mpexp {name}: matrix(Exp x) differs from expm(generator x) at [{r},{c}] by {err:.3e} > {lim:.3e} ({dtype})")
+                    break
+            else:
+                continue
+            break
+    mp_check_log(ctx, {"kind": "group", "type": name, "dtype": dtype, "shape": [len(M)], "X": E.tensor().double().reshape(-1, U.GDIM[name]).tolist(),
+                       "tags": [], "id": case.get("id")})
 
 
 # ----------------------------------------------------------------------------- driver self-consistency (contract of inverse)
@@ -605,9 +655,14 @@ def order_probe_finish(ctx: Ctx, spec, p):
             x = P.LieTensor(a, ltype=getattr(P, U.ALG[name] + "_type"))
             g = torch.tensor(spec[dtype][name]["X"], dtype=torch.float64).to(D)
             X = P.LieTensor(g, ltype=U.ltype(name))
-            E = x.Exp()
-            L = X.Log()
-            mine = [t.tensor().double().flatten() for t in (E, E.Log(), L, L.Exp())]
+            try:
+                E = x.Exp()
+                L = X.Log()
+                mine = [t.tensor().double().flatten() for t in (E, E.Log(), L, L.Exp())]
+            except Exception as ex:
+                ctx.fail({"kind": "order", "type": name, "dtype": dtype}, f"raises {name}: Exp/Log on the fixed corpus raised "
+                         f"{type(ex).__name__}: {str(ex)[:120]}")
+                continue
             ctx.count(f"order.{name}.{dtype}")
             ctx.note_case(("order", name, dtype), True)
             for nm, m, o in zip(("Exp(x)", "Log(Exp(x))", "Log(X)", "Exp(Log(X))"), mine, other[dtype + name]):
@@ -646,6 +701,8 @@ def run_cases(ctx: Ctx, n_group, n_alg):
         else:
             case = make_alg_case(rng, name, dtype, ci)
             eval_alg_case(ctx, case, pend)
+        if ci % 10 == 3 and int(math.prod(case["shape"])) >= 2:
+            check_views_and_batch(ctx, case)
         if ci % 40 == 0:
             ctx.sample({k: case[k] for k in ("kind", "type", "dtype", "shape")} | {"regimes": case["tags"][:4],
                        "first_item": (case.get("X") or case.get("x"))[0] if (case.get("X") or case.get("x")) else None}, cap=10)
@@ -654,7 +711,127 @@ def run_cases(ctx: Ctx, n_group, n_alg):
     flush(ctx, pend)
 
 
-TR_ANCHORS = [0.0, 1.0, 1e-3, 37.0, 1e3, 1e-20, 1e6]
+# ----------------------------------------------------------------------------- views, aliases, item-wise = batched
+
+K_SAME = 64.0    # two evaluations of the same item by the same code: 64 ulp per block, relative to the block
+
+
+def same_err(a, b, width, dtype):
+    """max over rows of blockless relative difference |a-b| / (64·eps·max|row|) of two (n,width) float64 tensors"""
+    if a.shape != b.shape:
+        return float("inf"), 0
+    a, b = torch.nan_to_num(a, nan=1e33), torch.nan_to_num(b, nan=1e33)
+    sc = b.abs().amax(-1, keepdim=True).clamp(min=1e-300)
+    r = ((a - b).abs() / (K_SAME * common.EPS[dtype] * sc)).amax(-1)
+    k = int(r.argmax()) if r.numel() else 0
+    return (float(r.max()) if r.numel() else 0.0), k
+
+
+def block_same(name, kind, a, b, dtype):
+    """per-block version: rotation / translation / scale blocks each relative to their own magnitude"""
+    worst, wk = 0.0, 0
+    if kind == "alg":
+        sls = [U.PHISL[name]] + ([U.TAUSL[name]] if U.TAUSL[name] is not None else []) + \
+              ([slice(U.SIGIDX[name], U.SIGIDX[name] + 1)] if U.SIGIDX[name] is not None else [])
+    else:
+        sls = [U.QSL[name]] + ([U.TSL[name]] if U.TSL[name] is not None else []) + \
+              ([slice(U.SIDX[name], U.SIDX[name] + 1)] if U.SIDX[name] is not None else [])
+    if a.shape != b.shape:
+        return float("inf"), 0
+    for sl in sls:
+        r, k = same_err(a[:, sl], b[:, sl], 0, dtype)
+        if r > worst:
+            worst, wk = r, k
+    return worst, wk
+
+
+def ops_of(kind, name):
+    P = U.pp()
+    if kind == "group":
+        return {"Log": (lambda o: o.Log(), "alg"), "Exp(Log)": (lambda o: o.Log().Exp(), "grp"), "Log(Inv)": (lambda o: o.Inv().Log(), "alg")}
+    return {"Exp": (lambda o: o.Exp(), "grp"), "Log(Exp)": (lambda o: o.Exp().Log(), "alg")}
+
+
+def check_views_and_batch(ctx: Ctx, case):
+    """(a) item-wise = batched: every op on the (mixed-regime) batch equals the same op on each item alone;
+    (b) views: the same batch presented as a strided slice of a larger buffer, as a permuted (non-contiguous) tensor, as an
+    expanded (stride-0) tensor and as the caller's own tensor re-used after the call gives the same values, leaves the
+    argument bit-identical and the storage around the view untouched; (c) the same object passed twice (X.Log() while X is
+    also referenced by a second LieTensor sharing storage)."""
+    P = U.pp()
+    kind, name, dtype = case["kind"], case["type"], case["dtype"]
+    D = U.dt(dtype)
+    width = U.GDIM[name] if kind == "group" else U.ADIM[name]
+    lt_ = U.ltype(name) if kind == "group" else getattr(P, U.ALG[name] + "_type")
+    rows = torch.tensor(case["X" if kind == "group" else "x"], dtype=torch.float64).reshape(-1, width).to(D)
+    n = rows.shape[0]
+    key = "X" if kind == "group" else "x"
+
+    def item_case(i, **kw):
+        return small({**case, "shape": [n]}, i, **kw)
+
+    for label, (fn, okind) in ops_of(kind, name).items():
+        ow = (U.ADIM if okind == "alg" else U.GDIM)[name]
+        try:
+            ref = fn(P.LieTensor(rows.clone(), ltype=lt_)).tensor().double().reshape(-1, ow)
+        except Exception as ex:
+            ctx.fail(case, f"raises {name}: {label} raised {type(ex).__name__}: {str(ex)[:120]}")
+            continue
+        # (a) each item alone
+        try:
+            single = torch.cat([fn(P.LieTensor(rows[i:i + 1].clone(), ltype=lt_)).tensor().double().reshape(-1, ow) for i in range(n)])
+        except Exception as ex:
+            ctx.fail(case, f"raises {name}: {label} on a single item raised {type(ex).__name__}: {str(ex)[:120]}")
+            continue
+        r, k = block_same(name, okind, ref, single, dtype)
+        ctx.count(f"batch-vs-item.{label}.{name}")
+        ctx.note_case(("batch-vs-item", label, name, dtype, n), True)
+        if not r <= 1.0:
+            ctx.fail(item_case(k, batch=case[key], which=label),
+                     f"batch {name}: {label} of item {k} inside a mixed batch of {n} differs from {label} of the item alone by "
+                     f"{r:.3g}×64 ulp ({dtype}): batched {ref[k].tolist()} vs alone {single[k].tolist()}")
+        # (b) views
+        variants = {}
+        buf = torch.full((2 * n + 1, width + 3), 7.25, dtype=D)
+        buf[1::2, 2:2 + width] = rows
+        variants["strided-slice"] = (buf[1::2, 2:2 + width], buf, rows)
+        if n >= 2 and n % 2 == 0:
+            base = rows.reshape(2, n // 2, width).permute(1, 0, 2).contiguous()      # (n/2, 2, w) contiguous
+            variants["permuted"] = (base.permute(1, 0, 2), base, rows.reshape(2, n // 2, width))
+        one = rows[:1].clone()
+        variants["expanded"] = (one.expand(3, width), one, rows[:1].repeat(3, 1))
+        for vname, (view, backing, plain) in variants.items():
+            before = backing.clone()
+            try:
+                got = fn(P.LieTensor(view, ltype=lt_)).tensor().double().reshape(-1, ow)
+                want = fn(P.LieTensor(plain.clone().reshape(view.shape), ltype=lt_)).tensor().double().reshape(-1, ow)
+            except Exception as ex:
+                ctx.fail(case | {"view": vname}, f"view {name}: {label} on a {vname} view raised {type(ex).__name__}: {str(ex)[:120]} ({dtype})")
+                continue
+            ctx.count(f"view.{vname}.{name}")
+            ctx.note_case(("view", vname, label, name, dtype), True)
+            if not torch.equal(torch.nan_to_num(backing, nan=1e33), torch.nan_to_num(before, nan=1e33)):
+                ctx.fail(case | {"view": vname}, f"view {name}: {label} wrote into the caller's buffer ({vname} view, {dtype})")
+            r, k = block_same(name, okind, got, want, dtype)
+            if not r <= 1.0:
+                ctx.fail(case | {"view": vname}, f"view {name}: {label} on a {vname} view differs from the contiguous copy by {r:.3g}×64 ulp "
+                         f"(row {k}: {got[k].tolist()} vs {want[k].tolist()}, {dtype})")
+        # (c) the caller's tensor wrapped twice (aliases) and used again after the call
+        try:
+            shared = rows.clone()
+            A, B = P.LieTensor(shared, ltype=lt_), P.LieTensor(shared, ltype=lt_)
+            r1 = fn(A).tensor().double().reshape(-1, ow)
+            r2 = fn(B).tensor().double().reshape(-1, ow)
+            if not torch.equal(shared, rows):
+                ctx.fail(case, f"view {name}: {label} modified the caller's tensor ({dtype})")
+            rr, k = block_same(name, okind, r2, r1, dtype)
+            if not rr <= 1.0:
+                ctx.fail(item_case(k), f"view {name}: {label} through a second LieTensor sharing the storage differs ({dtype})")
+        except Exception as ex:
+            ctx.fail(case, f"raises {name}: {label} on aliased LieTensors raised {type(ex).__name__}: {str(ex)[:120]}")
+
+
+TR_ANCHORS = [0.0, 1.0, 1e-3, 37.0, 1e3, 1e-20, 1e6, 1e-30, 1e12]
 
 
 def run_anchor_sweep(ctx: Ctx):
@@ -681,6 +858,7 @@ def run_anchor_sweep(ctx: Ctx):
             _, X64 = U.to_dtype_exact(rows, dtype)
             case = {"kind": "group", "type": name, "dtype": dtype, "shape": [len(rows)], "X": X64.tolist(), "tags": tags, "id": f"anchors-{name}-{dtype}"}
             eval_group_case(ctx, case, pend)
+            check_views_and_batch(ctx, case)
             sub = {**case, "X": case["X"][::6], "tags": tags[::6], "shape": [len(case["X"][::6])]}
             mp_check_log(ctx, sub)
             ctx.count(f"mpmath-log.{name}.{dtype}", len(sub["X"]))
@@ -712,6 +890,7 @@ def run_algebra_sweep(ctx: Ctx):
             _, x64 = U.to_dtype_exact(rows, dtype)
             case = {"kind": "alg", "type": name, "dtype": dtype, "shape": [len(rows)], "x": x64.tolist(), "tags": tags, "id": f"ladder-{name}-{dtype}"}
             eval_alg_case(ctx, case, pend)
+            check_views_and_batch(ctx, case)
     flush(ctx, pend)
 
 
@@ -720,6 +899,8 @@ def run(ctx: Ctx):
     def _reads(name):
         return {"Log": lambda o: o.Log().tensor(), "Exp(Log)": lambda o: o.Log().Exp().tensor(), "Inv.Log": lambda o: o.Inv().Log().tensor()}
     _UL.persistent_probe(ctx, _reads)
+    _UL.persistent_probe(ctx, lambda name: {"Exp": lambda o: o.Exp().tensor(), "Log(Exp)": lambda o: o.Exp().Log().tensor()},
+                         algebra=True)
     spec, proc = order_probe_start(ctx)      # runs concurrently in a fresh interpreter
     check_inverse_contract(ctx, 12)
     run_anchor_sweep(ctx)
@@ -754,6 +935,8 @@ def search(ctx: Ctx):
         c = d["case"]
         if c.get("kind") == "group":
             mp_check_log(ctx, c)
+        elif c.get("kind") == "alg":
+            mp_check_exp_log(ctx, c)
 
 
 def replay(ctx: Ctx, case) -> bool:
